@@ -13,6 +13,35 @@ class V:
     pass
 
 
+MAX_TREE = 400000
+
+
+class TooBig(Exception):
+    """A symbolic term whose written-out form is beyond what the analyser handles (no verdict, never a hang)."""
+
+
+def tsize(x):
+    if isinstance(x, Op):
+        return x.tsize()
+    if isinstance(x, Comp):
+        z = x.__dict__.get("_tsz")
+        if z is None:
+            z = 1 + tsize(x.elt) + tsize(x.it) + (tsize(x.cond) if x.cond is not None else 0)
+            x.__dict__["_tsz"] = z
+        return z
+    if isinstance(x, ListV):
+        return 1 + sum(tsize(y) for y in x.items)
+    if isinstance(x, DictV):
+        return 1 + sum(tsize(v) for _, v in x.items)
+    return 1
+
+
+def _guard(x):
+    z = tsize(x)
+    if z > MAX_TREE:
+        raise TooBig("a term of %d nodes when written out as a tree (limit %d): the analyser does not print or compare it" % (z, MAX_TREE))
+
+
 @dataclass(frozen=True)
 class Const(V):
     v: object
@@ -38,8 +67,19 @@ class Op(V):
     op: str
     args: tuple
 
+    def tsize(self):
+        """Size of the term written out as a tree (shared sub-terms counted once per use); cached per node."""
+        z = self.__dict__.get("_tsz")
+        if z is None:
+            z = 1
+            for x in self.args:
+                z += tsize(x)
+            object.__setattr__(self, "_tsz", z)
+        return z
+
     def __str__(self):
         o, a = self.op, self.args
+        _guard(self)
         if o in INFIX:
             return "(" + (" %s " % o).join(map(str, a)) + ")"
         if o == "~":
@@ -175,6 +215,7 @@ class Comp(V):
         self.elt, self.var, self.it, self.cond = elt, var, it, cond
 
     def __str__(self):
+        _guard(self)
         return "[%s for %s in %s%s]" % (self.elt, self.var, self.it, (" if %s" % self.cond) if self.cond is not None else "")
 
     __repr__ = __str__
